@@ -7,6 +7,8 @@
 #include "hx_req.h"
 #include "http_range.c"
 #include "http_date.h"
+#include "http_etag.h"
+#include "response.h"
 #include "log.h"
 #include <fcntl.h>
 
@@ -46,6 +48,32 @@ int main(void) {
             log_epoch_secs = 1700000000; /*(RFC 850 two-digit-year pivot: 2023)*/
             printf("%d\n", http_date_if_modified_since(v ? v : "", (uint32_t)n, (unix_time64_t)atoll(hx_tok[1])));
             free(v);
+            continue;
+        }
+        if (hx_ntok >= 4 && hx_tok[0][0] == 'M') {
+            /* M <weak_ok> <hex etag> <hex field value>  ->  http_etag_matches() */
+            size_t n; char *e = hx_dec(hx_tok[2], &n);
+            buffer *eb = buffer_init(); if (e) buffer_copy_string_len(eb, e, n);
+            size_t vn; char *v = hx_dec(hx_tok[3], &vn);
+            printf("%d\n", http_etag_matches(eb, v ? v : "", hx_tok[1][0] == '1'));
+            buffer_free(eb); free(e); free(v);
+            continue;
+        }
+        if (hx_ntok >= 7 && hx_tok[0][0] == 'E') {
+            /* E <method 1=GET 2=HEAD 0=POST><range?> <If-None-Match> <If-Modified-Since> <ETag> <Last-Modified> <lmtime>
+               -> status set by http_response_handle_cachable() (304 / 412) or 0 when it says go on */
+            hx_req_reset(&r);
+            const char *fl = hx_tok[1];
+            r.http_method = fl[0] == '1' ? HTTP_METHOD_GET : fl[0] == '2' ? HTTP_METHOD_HEAD : HTTP_METHOD_POST;
+            if (fl[1] == '1') http_header_request_set(&r, HTTP_HEADER_RANGE, CONST_STR_LEN("Range"), CONST_STR_LEN("bytes=0-1"));
+            set_rq(&r, HTTP_HEADER_IF_NONE_MATCH, CONST_STR_LEN("If-None-Match"), hx_tok[2]);
+            set_rq(&r, HTTP_HEADER_IF_MODIFIED_SINCE, CONST_STR_LEN("If-Modified-Since"), hx_tok[3]);
+            set_rs(&r, HTTP_HEADER_ETAG, CONST_STR_LEN("ETag"), hx_tok[4]);
+            set_rs(&r, HTTP_HEADER_LAST_MODIFIED, CONST_STR_LEN("Last-Modified"), hx_tok[5]);
+            log_epoch_secs = 1700000000;
+            const buffer *lm = http_header_response_get(&r, HTTP_HEADER_LAST_MODIFIED, CONST_STR_LEN("Last-Modified"));
+            handler_t h = http_response_handle_cachable(&r, lm, (unix_time64_t)atoll(hx_tok[6]));
+            printf("%d\n", h == HANDLER_FINISHED ? r.http_status : 0);
             continue;
         }
         if (hx_ntok < 12 || hx_tok[0][0] != 'R') { puts("?"); continue; }
